@@ -149,18 +149,18 @@ fn c05_hash_label_values_frame() {
     assert!(pos == rec::len(0), "C05.link: trailing bytes in the stream");
 }
 
-//@ id: c05_hash_cardinality_errors
+//@ id: c05_positional_cardinality_errors
 //@ prop: C05, C17
 //@ tier: quick
-//@ strength: bounded(2 declared labels; 0, 1 or 3 values / map entries)
-//@ fn: vec::MetricVecCore::hash_label_values, vec::MetricVecCore::hash_labels, vec::MetricVecCore::get_metric_with_label_values, vec::MetricVecCore::get_metric_with
-//@ obligation: a request with the wrong number of label values (or map entries) returns Err(InconsistentCardinality), hashes nothing, builds nothing and leaves the children map unchanged; a map with the right size but a missing name returns Err as well
+//@ strength: bounded(2 declared labels; 0, 1 or 3 values)
+//@ fn: vec::MetricVecCore::hash_label_values, vec::MetricVecCore::get_metric_with_label_values, vec::MetricVecCore::delete_label_values
+//@ obligation: a positional request with the wrong number of label values returns Err(InconsistentCardinality{expect: 2, got}), hashes nothing, builds nothing and leaves the children map unchanged (same for remove_label_values); never panics
 #[kani::proof]
 #[kani::unwind(8)]
 #[kani::stub(<fnv::FnvHasher as std::hash::Hasher>::write, rec::rec_write)]
 #[kani::stub(<fnv::FnvHasher as std::hash::Hasher>::finish, rec::rec_finish)]
 #[kani::stub(alloc::fmt::format, stub_format)]
-fn c05_hash_cardinality_errors() {
+fn c05_positional_cardinality_errors() {
     let v = mk_vec(&["a", "b"]);
     reset_builder(false);
     rec::reset();
@@ -174,8 +174,26 @@ fn c05_hash_cardinality_errors() {
         Err(Error::InconsistentCardinality { expect, got }) => assert!(expect == 2 && got != 2, "C05: cardinality error fields"),
         _ => assert!(false, "C05: wrong number of label values not refused with InconsistentCardinality"),
     }
-    assert!(rec::writes() == 0 && builds() == 0 && v.children.read().len() == 0, "C05: a refused request hashed or created something");
-    // map form
+    assert!(rec::writes() == 0 && builds() == 0 && v.children.ghost_peek().len() == 0, "C05: a refused request hashed or created something");
+    assert!(v.delete_label_values(&["x"]).is_err(), "C05/C17: remove_label_values with wrong cardinality not refused");
+    assert!(rec::writes() == 0, "C05: a refused removal hashed something");
+}
+
+//@ id: c05_map_form_errors
+//@ prop: C05, C17
+//@ tier: thorough
+//@ strength: bounded(2 declared labels; request maps with 1 entry, and with 2 entries one of which has an undeclared name)
+//@ fn: vec::MetricVecCore::hash_labels, vec::MetricVecCore::get_metric_with, vec::MetricVecCore::delete
+//@ obligation: a map request with too few entries returns Err(InconsistentCardinality); one with the right size but a missing label name returns Err; neither builds nor inserts anything; remove() likewise
+#[kani::proof]
+#[kani::unwind(8)]
+#[kani::stub(<fnv::FnvHasher as std::hash::Hasher>::write, rec::rec_write)]
+#[kani::stub(<fnv::FnvHasher as std::hash::Hasher>::finish, rec::rec_finish)]
+#[kani::stub(alloc::fmt::format, stub_format)]
+fn c05_map_form_errors() {
+    let v = mk_vec(&["a", "b"]);
+    reset_builder(false);
+    rec::reset();
     let mut m: HashMap<&str, &str> = HashMap::new();
     m.insert("a", "x");
     let r = v.get_metric_with(&m);
@@ -183,14 +201,13 @@ fn c05_hash_cardinality_errors() {
     m.insert("c", "y"); // right size, wrong name
     let r = v.get_metric_with(&m);
     assert!(r.is_err(), "C05: map with a missing label name not refused");
-    assert!(builds() == 0 && v.children.read().len() == 0, "C05: a refused map request created something");
+    assert!(builds() == 0 && v.children.ghost_peek().len() == 0, "C05: a refused map request created something");
     assert!(v.delete(&m).is_err(), "C05/C17: remove with a missing label name not refused");
-    assert!(v.delete_label_values(&["x"]).is_err(), "C05/C17: remove_label_values with wrong cardinality not refused");
 }
 
 //@ id: c05_hash_labels_matches_positional
 //@ prop: C05
-//@ tier: quick
+//@ tier: thorough
 //@ strength: bounded(2 labels, values of 0..2 symbolic ASCII bytes, both insertion orders of the request map)
 //@ fn: vec::MetricVecCore::hash_labels, vec::MetricVecCore::get_label_values
 //@ obligation: the map form {a: v0, b: v1}, in either insertion order, feeds the hasher exactly the stream of the positional form [v0, v1] (same child), and get_label_values returns the values in declared-name order
